@@ -6,13 +6,21 @@ pub mod c01;
 pub mod c02;
 pub mod c03;
 pub mod c04;
+pub mod c05;
 pub mod c06;
 pub mod c07;
 pub mod c08;
 pub mod c09;
 pub mod c10;
 pub mod c11;
+pub mod c12;
+pub mod c13;
+pub mod c14;
+pub mod c15;
 pub mod c16;
+pub mod c18;
+pub mod c19;
+pub mod c20;
 
 pub struct Entry {
     pub id: &'static str,
@@ -28,7 +36,7 @@ pub fn lookup(id: &str) -> Option<&'static Entry> {
     ALL.iter().find(|e| e.id == id)
 }
 
-pub static ALL: &[Entry] = &[c01::ENTRY, c02::ENTRY, c03::ENTRY, c04::ENTRY, c06::ENTRY, c07::ENTRY, c08::ENTRY, c09::ENTRY, c10::ENTRY, c11::ENTRY, c11::ENTRY17, c16::ENTRY];
+pub static ALL: &[Entry] = &[c01::ENTRY, c02::ENTRY, c03::ENTRY, c04::ENTRY, c05::ENTRY, c06::ENTRY, c07::ENTRY, c08::ENTRY, c09::ENTRY, c10::ENTRY, c11::ENTRY, c11::ENTRY17, c12::ENTRY, c13::ENTRY, c14::ENTRY, c15::ENTRY, c16::ENTRY, c18::ENTRY, c19::ENTRY, c20::ENTRY];
 
 pub fn replay(ctx: &Ctx, path: &str) -> i32 {
     common::replay_file(ctx, path)
@@ -36,10 +44,18 @@ pub fn replay(ctx: &Ctx, path: &str) -> i32 {
 
 pub fn replay_special(_ctx: &Ctx, case: &serde_json::Value) -> i32 {
     match case["kind"].as_str() {
+        Some("c05") => return c05::replay(case),
         Some("c06") => return c06::replay(case),
         Some("c07") => return c07::replay(case),
         Some("c09") => return c09::replay(case),
         Some("init") => return c11::replay(case),
+        Some("c13") => return c13::replay(case),
+        Some("c14") => return c14::replay(case),
+        Some("c15") => return c15::replay(case),
+        Some("c18") => return c18::replay(case),
+        Some("c19") => return c19::replay(case),
+        Some("c20") => return c20::replay(case),
+        Some("c12-init") | Some("c12-op") => return c12::replay(case),
         _ => {}
     }
     eprintln!("no special replay for kind {}", case["kind"]);
